@@ -38,7 +38,7 @@ LABELS = {
     ('close', 'self.conn.close()'): 'k3',
     ('close', 'del self.conn'): 'k4',
 }
-SHARED_HINTS = ('prepare_thread', 'self.conn', 'prepare_lock', 'call_lock', 'Popen(', 'Client(', 'thread.join(')
+SHARED_HINTS = ('prepare_thread', 'self.conn', 'prepare_lock', 'call_lock', 'Popen(', 'Client(', 'thread.join(', '.start()')
 
 
 class Abort(BaseException):
@@ -241,6 +241,8 @@ def make_thread_class(world):
             ready.acquire()       # the new thread runs to its first labelled line (or ends)
 
         def join(self, timeout=None):
+            if not self.started:
+                raise RuntimeError('cannot join thread before it is started')     # as threading.Thread does
             while not self.finished:
                 world.park(('blocked', 'join', self))
 
